@@ -6,16 +6,19 @@ from harness import core, gen, common
 
 ID = 'C12'
 LEAN_TARGETS = ['Props.C12']
-TIE_A = ['g3c_translation_rotor_eq', 'g3c_dilation_rotor_eq', 'g3c_apply_rotor_eq', 'g3c_rotor_between_planes_eq'] + ['g3c_point_pair_end_points_eq', 'g3c_sphere_center_eq']
+TIE_A = ['g3c_translation_rotor_eq', 'g3c_dilation_rotor_eq', 'g3c_apply_rotor_eq', 'g3c_rotor_between_planes_eq'] + ['g3c_point_pair_end_points_eq', 'g3c_sphere_center_eq'] + ['quat_q2m_eq', 'quat_m2q_eq', 'quat_rotor_eq']
 OBLIGATIONS = [
     'C12.fast_up_is_up', 'C12.fast_down_inverts_up', 'C12.translation_rotor_unit', 'C12.translation_rotor_moves', 'C12.euc_dist_sq',
     'C12.apply_rotor_compose', 'C12.one_plus_X2X1_intertwines', 'C12.fast_dual_kernel', 'C12.model_relations',
     'C12.dilation_rotor', 'C12.rotation_rotor_unit', 'C12.rotation_rotor_turns', 'C12.rotation_rotor_fixes',
     'C12.point_pair_square', 'C12.point_pair_end_points', 'C12.point_pair_dot_einf', 'C12.sphere_centre', 'C12.sphere_radius',
+    'C12.quaternion_matrix_rows', 'C12.matrix_quaternion_round_trip', 'C12.rotor_acts_as_matrix', 'C12.quaternion_rotor_norm', 'C12.rotor_quaternion_round_trip',
 ]
 PARTIAL = ['dilation/rotation rotors, point_pair_to_end_points, sphere centre/radius are proved with the transcendental value as a parameter constrained by its algebraic law '
            '(a^2-b^2 = 1, c^2+s^2 = 1, beta = -gamma); that libm satisfies these laws to rounding is evaluated',
-           'quaternion/matrix conversions, projections, cost and parameterisation kernels, explicit and line-specialised rotor extractors: no Lean theorem '
+           'g3 conversions: quaternion -> matrix -> quaternion (over the reals, branch selection included), rotor <-> quaternion and "the rotor acts as the matrix" are '
+           'theorems tied by translate/quat2lean.py; matrix -> quaternion -> matrix (that every rotation matrix is the matrix of a unit quaternion) and binary64 rounding are evaluated',
+           'projections, cost and parameterisation kernels, explicit and line-specialised rotor extractors: no Lean theorem '
            '(branch analysis / numerical kernels); decided by evaluation on the implementation']
 RULE = ("Euclidean points/vectors with dyadic coordinates in a box of size 8, scales/radii in [1/4, 8], angles in (0, pi); random integer multivectors for the algebraic "
         "identities (fast kernels vs generic definitions, exact). Non-trivial = non-zero input; distinct = distinct (function, input)")
